@@ -3605,6 +3605,67 @@ func (g *hGen) headersMany(ns []int) {
 	g.add("hdr", "hdr.many.blanks", []byte("FlyV1"+strings.Repeat(" ", 300000)+tiny+strings.Repeat("\t", 100000)))
 }
 
+// ---- one ticket under many third-party caveats (F23) ----
+//
+// A permission token whose k third-party caveats all carry THE SAME ticket (a holder can add them: one
+// NewCaveat3P, the value copied k times under k location strings - the harness recomputes each VerifierKey and
+// the tail by hand), presented with discharges for that ticket that carry c first-party caveats each:
+//
+//	samekey : every VerifierKey seals the one discharge key; ONE genuine discharge.  Verification verifies that
+//	          discharge once per third-party caveat and returns its c caveats k times (k*c results)
+//	diffkeys: the i-th VerifierKey seals its own key; k discharges, the i-th signed with the i-th key, all under the
+//	          one ticket.  Every caveat tries the candidates in order until its own verifies: k*k/2 MAC chains of c
+//	onedis  : (thorough tier) as diffkeys, with the ONE discharge that fits the last caveat only.  Plain verification
+//	          stops at the first caveat without a discharge (0.4 MiB); the bundle layer hands the verifier that
+//	          discharge once per (location, ticket) pair, i.e. k times, and each copy costs a MAC chain of c
+//
+// Entries: `FlyV1 <token>,<discharge>...` - read by macaroon.Parse + Verify (op find.verify) and by the bundle layer.
+func (g *hGen) many3P(ks []int, thorough bool) {
+	ticket := hostileTicket([]byte{0x90})
+	tok := func(k int, keyOf func(i int) []byte) []byte {
+		nonce := mpA(mpBn([]byte("legit-kid")), mpBn(bytes.Repeat([]byte{0x3b}, 16)), mpB(false))
+		tail := hmacSum(hKey, mpEnc(nonce))
+		var pairs []*mpNode
+		for i := 0; i < k; i++ {
+			vk := aeadSeal(tail, append(bePut(4, uint64(i)), make([]byte, 8)...), keyOf(i))
+			body := mpA(mpS(fmt.Sprintf("https://tp/%d", i)), mpBn(vk), mpBn(ticket))
+			pairs = append(pairs, mpU(11), body)
+			tail = hmacSum(tail, mpEnc(mpA(mpU(11), body)))
+		}
+		return mpEnc(mpA(nonce, mpS(hLoc), mpA(pairs...), mpBn(tail)))
+	}
+	dis := func(c int, key []byte, rnd byte, loc string) []byte {
+		dn := mpA(mpBn(ticket), mpBn(bytes.Repeat([]byte{rnd}, 16)), mpB(false))
+		tail := hmacSum(key, mpEnc(dn))
+		var pairs []*mpNode
+		for j := 0; j < c; j++ {
+			body := mpA(mpU(uint64(j)), mpU(1<<40))
+			pairs = append(pairs, mpU(4), body)
+			tail = hmacSum(tail, mpEnc(mpA(mpU(4), body)))
+		}
+		return mpEnc(mpA(dn, mpS(loc), mpA(pairs...), mpBn(tail)))
+	}
+	// the discharges of the keyed variants name a location for which the verifier holds no third-party key: with
+	// such a key the ticket is opened first and a candidate whose key is not the ticket's is dropped before its chain
+	// is computed (measured: 0.7 MiB); a discharge chooses its own location string
+	const otherLoc = "https://tp-unknown.example"
+	keyI := func(i int) []byte { return hmacSum(hRN, bePut(4, uint64(i))) }
+	for _, k := range ks {
+		c := k
+		g.add("hdr", fmt.Sprintf("tok.many3p.sameticket.samekey.%d", k), []byte(hdrOf(tok(k, func(int) []byte { return hRN }), dis(c, hRN, 1, hLoc3))))
+		// fewer candidates, each as long: k candidates x k caveats x c is cubic in k
+		kd := k / 8
+		ds := [][]byte{tok(kd, keyI)}
+		for i := 0; i < kd; i++ {
+			ds = append(ds, dis(c, keyI(i), byte(i), otherLoc))
+		}
+		g.add("hdr", fmt.Sprintf("tok.many3p.sameticket.diffkeys.%d", kd), []byte(hdrOf(ds...)))
+		if thorough {
+			g.add("hdr", fmt.Sprintf("tok.many3p.sameticket.onedis.%d", k), []byte(hdrOf(tok(k, keyI), dis(c, keyI(k-1), 2, otherLoc))))
+		}
+	}
+}
+
 // ------------------------------------------------------------------------------------------------
 
 func famHostile(r *Rng, o *Out, tier string) {
@@ -3637,8 +3698,10 @@ func famHostile(r *Rng, o *Out, tier string) {
 	g.headers(300 * scale)
 	if tier == "thorough" {
 		g.headersMany([]int{3000, 20000})
+		g.many3P([]int{200, 400}, true)
 	} else {
 		g.headersMany([]int{3000})
+		g.many3P([]int{200}, false)
 	}
 	// dedicated children: inputs whose nesting is proportional to their length (a fatal stack overflow cannot be recovered)
 	t99999 := []byte{0x92, 0xce, 0x00, 0x01, 0x86, 0x9f}
